@@ -8,6 +8,7 @@ impl BS {
             forall|j: int| 0 <= j < o.n(k0) && j != x ==> #[trigger] f.fs[k0].leaf().bit_at(j) == o.fs[k0].leaf().bit_at(j),
         ensures f.inv1(), f.inv2(), o.cov(k0, x), !f.cov(k0, x),
             forall|k: int, y: int| 0 <= k <= k0 ==> #[trigger] f.cov(k, y) == (o.cov(k, y) && !is_anc(k, y, k0, x)),
+            forall|j: int, y: int| #[trigger] f.a(j, y) ==> o.cov(j, y),
     {
         assert forall|k: int| 0 <= k <= o.m implies #[trigger] f.n(k) == o.n(k) by {}
         assert(o.added(f, k0, x)) by {
@@ -29,6 +30,7 @@ impl BS {
         assert(!o.cov(k0 + 1, x / 2));
         assert(!f.a(k0, x));
         BS::lemma_view_removed(o, f, k0, x);
+        assert forall|j: int, y: int| #[trigger] f.a(j, y) implies o.cov(j, y) by { assert(o.a(j, y)); }
     }
 
     pub proof fn lemma_alloc_case_b(s: BS, s1: BS, f: BS, k0: int, u: int)
@@ -42,8 +44,10 @@ impl BS {
             !f.fs[k0].leaf().bit_at(2 * u + 1),
             forall|j: int| 0 <= j < s.n(k0) && j != 2 * u + 1 ==> #[trigger] f.fs[k0].leaf().bit_at(j) == s1.fs[k0].leaf().bit_at(j),
             forall|k: int, y: int| 0 <= k <= k0 + 1 ==> #[trigger] s1.cov(k, y) == (s.cov(k, y) && !is_anc(k, y, k0 + 1, u)),
+            forall|j: int, y: int| #[trigger] s1.a(j, y) ==> s.cov(j, y),
         ensures f.inv1(), f.inv2(), s.cov(k0, 2 * u), !f.cov(k0, 2 * u),
             forall|k: int, y: int| 0 <= k <= k0 ==> #[trigger] f.cov(k, y) == (s.cov(k, y) && !is_anc(k, y, k0, 2 * u)),
+            forall|j: int, y: int| #[trigger] f.a(j, y) ==> s.cov(j, y),
     {
         let q1 = 2 * u + 1;
         assert(s1.fs[k0] == s.fs[k0]);
@@ -75,5 +79,8 @@ impl BS {
         assert(!f.a(k0, 2 * u));
         assert(sbuddy(2 * u) == q1);
         BS::lemma_view_split(s, s1, f, k0, u, 2 * u);
+        assert forall|j: int, y: int| #[trigger] f.a(j, y) implies s.cov(j, y) by {
+            if j == k0 && y == q1 { assert(s.cov(k0 + 1, q1 / 2)); } else { assert(s1.a(j, y)); }
+        }
     }
 }
